@@ -1,5 +1,10 @@
 package kgo
 
+import (
+	"context"
+	"sync"
+)
+
 // C14: buffered/unbuffered hooks pair up exactly once per record. The hook-pairing and gauge
 // assertions live in the C01 (produce side) and C04 (fetch side) kernels' final checks
 // (checkGlobal / checkFinal: "every promise is paired with one unbuffered hook carrying the
@@ -14,3 +19,74 @@ func VerifC14_produceBufferRecord()   { VerifC01_bufferRecordArms() }
 func VerifC14_fetchTake()             { VerifC04_takeBuffered() }
 func VerifC14_fetchDiscard()          { VerifC04_discardBuffered() }
 func VerifC14_fetchTakeN()            { VerifC04_takeNBuffered() }
+
+// Session stop (rebalance, RemoveConsumePartitions, purge) discards buffered fetches and hands
+// their unbuffered-hook dispatches to a goroutine; a poll that starts right after queues new
+// dispatches for the fetches it takes. Whatever the interleaving of that goroutine with the
+// poller, every record's OnFetchRecordUnbuffered runs exactly once — discarded records with
+// polled=false, polled records with polled=true. Two sources with one buffered record each are
+// discarded by the real stopSession; then 1..2 further sources are buffered and taken by a
+// "poll" (takeBuffered + runDeferredFetchHooks) before, or after, the dispatch goroutine ran.
+func verifC14Source(cl *Client, topic string, off int64) (*source, *Record) {
+	s := &source{cl: cl, sem: make(chan struct{})}
+	s.buffered.doneFetch = make(chan bool, 4)
+	s.buffered.usedOffsets = make(usedOffsets)
+	cur := &cursor{topic: topic, partition: 0, source: s}
+	cur.offset = off
+	r := &Record{Topic: topic, Partition: 0, Offset: off, Value: []byte{1}}
+	fp := FetchPartition{Partition: 0, Records: []*Record{r}}
+	s.buffered.usedOffsets[topic] = map[int32]*cursorOffsetNext{0: {cursorOffset: cursorOffset{offset: off + 1, lastConsumedEpoch: 3}, from: cur}}
+	s.buffered.fetch.Topics = []FetchTopic{{Topic: topic, Partitions: []FetchPartition{fp}}}
+	s.hookBuffered(&s.buffered.fetch)
+	return s, r
+}
+
+func VerifC14_stopSessionDiscardThenPoll() {
+	cl := &Client{}
+	cl.cfg.logger = new(nopLogger)
+	hk := &verifC04Hook{buf: map[*Record]int{}, unbuf: map[*Record]int{}, polled: map[*Record]bool{}}
+	cl.cfg.hooks = hooks{hk}
+	cl.ctx = context.Background()
+	c := &cl.consumer
+	c.cl = cl
+	ctx, cancel := context.WithCancel(cl.ctx)
+	sess := &consumerSession{c: c}
+	sess.ctx, sess.cancel = ctx, cancel
+	sess.workersCond = sync.NewCond(&sess.workersMu)
+	c.session.Store(sess)
+
+	s1, r1 := verifC14Source(cl, "a", 10)
+	s2, r2 := verifC14Source(cl, "b", 20)
+	c.sourcesReadyForDraining = []*source{s1, s2}
+
+	c.stopSession()
+	c.sessionChangeMu.Unlock() // stopSession returns holding it; its callers release it
+	if verifChoose(2) == 1 {
+		verifRunAll() // the dispatch goroutine gets to run before the next poll
+	}
+
+	// the next poll takes freshly buffered fetches from 1..2 sources
+	nPoll := 1 + verifChoose(2)
+	var polled []*Record
+	for i := 0; i < nPoll; i++ {
+		s, r := verifC14Source(cl, []string{"c", "d"}[i], int64(30+10*i))
+		polled = append(polled, r)
+		c.sourcesReadyMu.Lock()
+		s.takeBuffered(nil)
+		c.sourcesReadyMu.Unlock()
+	}
+	if verifChoose(2) == 1 {
+		verifRunAll()
+	}
+	c.runDeferredFetchHooks()
+	verifRunAll()
+
+	for _, r := range []*Record{r1, r2} {
+		verifAssert(hk.buf[r] == 1 && hk.unbuf[r] == 1 && !hk.polled[r], "a record discarded at session stop is unbuffered exactly once, as not polled")
+	}
+	for _, r := range polled {
+		verifAssert(hk.buf[r] == 1 && hk.unbuf[r] == 1 && hk.polled[r], "a polled record is unbuffered exactly once, as polled")
+	}
+	verifAssert(c.bufferedRecords.Load() == 0 && c.bufferedBytes.Load() == 0, "fetch gauges return to zero")
+	verifReached("c14-stop-session")
+}
